@@ -1,6 +1,6 @@
 (* C06 - The lower bound never exceeds the optimum (lb_sound); optimum reachability: see below. *)
-From Coq Require Import List ZArith Bool Lia.
-From JSL Require Import Classic.Jssp Classic.Packing Classic.LowerBound Classic.Sequential Base.Res SM.Types SM.Util SM.Handler SM.Step SM.Middleware SM.Inv SM.ExampleShift SMP.Clock SMP.StepInv SMP.LiftSide SMP.OutputDone SMP.Reflect SMP.LiftProv SMP.ProvBatch SMP.Durations SMP.EndToEnd.
+From Coq Require Import List ZArith QArith Bool Lia.
+From JSL Require Import Classic.Jssp Classic.Packing Classic.LowerBound Classic.Sequential Base.Res SM.Types SM.Util SM.Handler SM.Step SM.Middleware SM.Inv SM.ExampleShift SMP.Clock SMP.StepInv SMP.LiftSide SMP.OutputDone SMP.Reflect SMP.LiftProv SMP.ProvBatch SMP.Durations SMP.EndToEnd SMP.Makespan Obs.Reward Obs.RewardP.
 Import ListNotations.
 Open Scope Z_scope.
 
@@ -79,3 +79,38 @@ Proof.
     destruct (runG sh_sigma sh_inst side2 200 sh_init0 3%Z true [1;1;1;1;1]%Z) as [[r m]|] eqn:E; [|vm_compute in E; discriminate].
     exists r, m. split; [eapply reachG_reach; eapply runG_reach; exact E|]. vm_compute in E. inversion E; subst. vm_compute. reflexivity.
 Qed.
+
+(* ... in particular the REPORTED makespan: the clock of a terminated result is the latest completion (C04_clock_at_termination_is_the_latest_completion),
+   so the bound is at most the time and info["makespan"] the environment reports, for every run of every instance that ends with all work delivered *)
+Theorem C06_lower_bound_below_the_reported_makespan_every_instance :
+  forall (sigma : oracle) (i : inst) (fuel : nat) (x0 : state) (joker0 : Z) (ta : bool) (r : result) (m : mw)
+         (I : cinst) (lb : Z),
+    inst_nonneg_b i = true ->
+    clock_b x0 = true -> wfs_b i x0 = true -> fresh2_b i x0 = true -> nodep_b x0 = true -> (0 <= s_now x0)%Z ->
+    cinst_rel i I -> classic I -> (0 < nmach I)%nat -> lower_bound I = Some lb ->
+    reach sigma i fuel x0 joker0 ta r m -> all_in_output i (r_x r) = true ->
+    (lb <= s_now (r_x r))%Z.
+Proof.
+  intros sigma i fuel x0 joker0 ta r m I lb Hnn C W Fr Dn Ht0 R Hcl Hnm Hlb H Hout.
+  eapply C06_lower_bound_below_every_terminated_run_every_instance; eauto.
+  exact (proj1 (terminated_clock_bounds_all_ends sigma i _ _ _ _ _ _ H Hout)).
+Qed.
+Print Assumptions C06_lower_bound_below_the_reported_makespan_every_instance.
+
+(* ... and therefore the main term of the terminal reward, computed with that bound, never exceeds its nominal maximum 1 *)
+Theorem C06_terminal_reward_never_exceeds_its_maximum :
+  forall (sigma : oracle) (i : inst) (fuel : nat) (x0 : state) (joker0 : Z) (ta : bool) (r : result) (m : mw)
+         (I : cinst) (lb : Z) (c : rcfg),
+    inst_nonneg_b i = true ->
+    clock_b x0 = true -> wfs_b i x0 = true -> fresh2_b i x0 = true -> nodep_b x0 = true -> (0 <= s_now x0)%Z ->
+    cinst_rel i I -> classic I -> (0 < nmach I)%nat -> lower_bound I = Some lb ->
+    reach sigma i fuel x0 joker0 ta r m -> all_in_output i (r_x r) = true ->
+    rc_lb c = lb -> (rc_lb c < rc_tmax c)%Z ->
+    (terminal_term c (s_now (r_x r)) <= 1)%Q.
+Proof.
+  intros sigma i fuel x0 joker0 ta r m I lb c Hnn C W Fr Dn Ht0 R Hcl Hnm Hlb H Hout Elb Hlt.
+  apply terminal_term_le_one; auto. rewrite Elb.
+  eapply C06_lower_bound_below_the_reported_makespan_every_instance; eauto.
+Qed.
+Print Assumptions C06_terminal_reward_never_exceeds_its_maximum.
+
